@@ -11,7 +11,7 @@ use vaporetto::Sentence;
 
 const SIGMA: [char; 8] = ['a', 'あ', ' ', '/', '\\', '-', '|', '\0'];
 
-fn rich_state(w: &World) -> Sentence<'static, 'static> {
+fn rich_state(w: &World) -> Sentence<'static, '_> {
     let mut s = Sentence::from_tokenized("a/X b/Y/Z").expect("rich state");
     w.preds[1].p.predict(&mut s);
     s.fill_tags();
